@@ -780,7 +780,7 @@ FORMS = (('triv', 'array'), ('triv', 'matvec'), ('u1x2', 'array'), ('u1mix', 'ar
 def units(tier, seed, label):
     if label == 'PY':  # pure-Python configuration (thorough only): the quick-sized enumeration
         tier = 'quick'
-    dmax = 6 if tier == 'quick' else 8
+    dmax = 6 if tier == 'quick' else 10
     us = []
     for d, spec, (struct, form) in itertools.product(range(1, dmax + 1), HERMITIAN_SPECTRA, FORMS):
         if d == 1 and spec not in ('nondeg', 'zero'):
